@@ -1524,6 +1524,13 @@ M('C20', 'original defect: Hdf5Storage.subcontainer is not registered with its p
   "        res = Hdf5Storage(self.h5gr.create_group(name))\n        self._subcontainers.append(res)\n", "        res = Hdf5Storage(self.h5gr.create_group(name))\n",
   'ST-sub-registered')
 
+M('C11', "original defect: from_Wflat permutes only the leg p of the W tensors", 'tenpy/networks/mpo.py',
+  "                W = W[site.perm, :, :, :][:, site.perm, :, :]  # both physical legs 'p' and 'p*'", "                W = W[site.perm, :, :]",
+  'PERM-both-legs')
+M('C11', 'from_Wflat permutes both legs with np.ix_ (twin)', 'tenpy/networks/mpo.py',
+  "                W = W[site.perm, :, :, :][:, site.perm, :, :]  # both physical legs 'p' and 'p*'", "                W = W[np.ix_(site.perm, site.perm)]",
+  None, expect='silent')
+
 # ---------------------------------------------------------------- C16 / C19
 M('C16', 'GMRES restart: relative residual norm used for normalisation (round-3 seed b)', KRY,
   """        self.total_error.append([npc.norm(self.rs[-1]) / self.b_norm])
